@@ -980,6 +980,36 @@ func (c *bufComp) Run(h *hlib.History) ([]hlib.Mon, bool) {
 			}
 		}
 	}
+	// after the exchanges: uploads the client does not complete (it announces a body, sends a part of it and stops sending
+	// while it waits for the answer). The handler is handed the client's request or nothing: never a shorter body declared
+	// as the true length.
+	for k, raw := range []string{
+		"POST /p/1?q=1 HTTP/1.1\r\nHost: x\r\nContent-Length: 20\r\nConnection: close\r\n\r\n0123456789",
+		"POST /p/1?q=1 HTTP/1.1\r\nHost: x\r\nTransfer-Encoding: chunked\r\nConnection: close\r\n\r\na\r\n0123456789\r\n14\r\nabcd",
+	} {
+		st := &exchState{x: exch{method: 1, url: 1, cut: -1, scripts: [][]ev{{{3, -1, 0}, {1, 200, 0}}}}, done: make(chan struct{})}
+		cur = st
+		conn, err := net.DialTimeout("tcp", srv.Listener.Addr().String(), 5*time.Second)
+		if err != nil {
+			continue
+		}
+		_, _ = conn.Write([]byte(raw))
+		if tc, ok := conn.(*net.TCPConn); ok {
+			_ = tc.CloseWrite()
+		}
+		_ = conn.SetReadDeadline(time.Now().Add(10 * time.Second))
+		answer, _ := io.ReadAll(conn)
+		conn.Close()
+		select {
+		case <-st.done:
+		case <-time.After(10 * time.Second):
+		}
+		hlib.Count("truncated_uploads", 1)
+		first := strings.SplitN(string(answer), "\r\n", 2)[0]
+		for _, in := range st.invs {
+			mons = append(mons, hlib.Mon{Prop: "C06", Step: len(xs) - 1, Msg: fmt.Sprintf("truncated upload %d (the client announced more than it sent, then stopped sending): the handler was invoked with ContentLength %d, TransferEncoding %v and read %d bytes, as if that were the client's request (answer to the client: %q)", k, in.cl, in.te, len(in.read), first)})
+		}
+	}
 	return mons, true
 }
 
